@@ -91,6 +91,11 @@ CHECKS = {
          "All histories of length <=3 (quick) / <=4 (thorough) over 10 operations (compile / JSON-split compile / format over six source sets incl. anonymous bits, imports, syntax errors, multi-error modules, identical text under another name, back-end attribute errors), each in a fork of a process that has imported the compiler and compiled nothing: every step's IR JSON, header and rendered diagnostics equal the fresh-process result up to renumbering of reserved anonymous identifiers; canonical process states (module cache keys, anonymous counter, reserved-word table) are recorded. embossc and emboss-format as fresh processes under 8/32 hash seeds (offset by VERIF_SEED) on eight source sets: identical exit status, stdout, stderr and header; identical output for every order and multiplicity of import directories holding identical copies.",
          "PYTHONHASHSEED is a bounded alphabet of a 2^32 space. Outputs compared up to anonymous-identifier numbering.",
          "DESIGN.md section 3, C17"),
+ "C11": ("exploration",
+         "exhaustive enumeration of the accepted expression language up to a token bound (by extending viable prefixes on the real parser) and deviation-bounded dressed programs, each formatted by the real formatter under indent widths 1-8 and compared token-wise and IR-wise",
+         "All 15 264 (quick, <=6 tokens) / 96 870 (thorough, <=7) token sequences the real expression parser accepts over a 19-symbol alphabet, as virtual-field value, field offset and attribute value; EmbSpace programs (<=1 deviation) x 9 dressings (comments, duplicate comments, documentation, blank lines, odd spacing, trailing blanks, tabs, attribute lines) x indent 1-8; types nested 1-8 deep x indent 1-8; 45 corpus files x indent 1-8. Formatting never raises, the output tokenizes and parses, token streams are equal up to whitespace / blank lines / trailing blanks in comments and documentation, module_ir.build_ir is equal after stripping locations, a second pass is the identity, the built-in self-check reports nothing, and the emboss-format CLI equals the API.",
+         "Trusted: token and IR comparison in checks/c11.py. Inputs that do not parse are outside the property.",
+         "DESIGN.md section 3, C11"),
 }
 NOT_YET = "check not built yet in this round (planned in DESIGN.md section 3); no claim made"
 
